@@ -26,7 +26,7 @@ PROPERTIES = {
     "C01": {
         "level": "proof",
         "units": [ODE_UNIT, ("contracts.identity", "species_eq_hash")],
-        "oracle": native_ode.oracle_for("C01"),
+        "oracle": _both(native_ode.oracle_for("C01"), native_ids.oracle_alias_distinct("C01")),
         "extra": [frame.state_frame_items, frame.shared_default_items, frame.ownership_items, templates.fex_template_items, templates.macros_template_items, templates.numdens_items, templates.comment_glue_items, templates.stmwrap_items],
         "trusted_base": _ode_trusted,
         "explanation": "loop invariants and postconditions of _prepare_ode_content: den(fex[i]) == sum_r (cntP-cntR) k_r prod y + modifier terms; thermal equation; unbounded in species/reactions/modifier entries. The particle density of the temperature equation is under contract as well: npar is bound to GetNumDens of the state vector in every back end, and the rendered GetNumDens (mini C front end, summation loop cut at a partial-sum invariant, symbolic NSPECIES) returns the sum of the NSPECIES species abundances, not of all NEQUATIONS slots. Frame obligations: a reaction owns its species lists (no aliasing of caller lists), no class-level mutable object is used as instance state, statement emitters of the templates never start inside a // comment, and the statement wrapper keeps long words whole (assumed contract of textwrap.wrap with break_long_words=False) and rewrites nothing but the indentation of a closing brace",
@@ -34,14 +34,14 @@ PROPERTIES = {
     "C02": {
         "level": "proof",
         "units": [ODE_UNIT, ("contracts.identity", "species_eq_hash")],
-        "oracle": native_ode.oracle_for("C02"),
+        "oracle": _both(native_ode.oracle_for("C02"), native_ids.oracle_alias_distinct("C02")),
         "extra": [frame.state_frame_items, frame.shared_default_items, templates.jacobian_template_items, templates.driver_alloc_items, templates.comment_glue_items, templates.stmwrap_items],
         "trusted_base": _ode_trusted + ["bridge L1 (stated definition): sum over occurrences m of slot j of the product of the other occurrences IS d/dy_j of the monomial"],
     },
     "C03": {
         "level": "proof",
         "units": [ODE_UNIT, ("contracts.identity", "species_eq_hash")],
-        "oracle": native_ode.oracle_for("C03"),
+        "oracle": _both(native_ode.oracle_for("C03"), native_ids.oracle_alias_distinct("C03")),
         "extra": [frame.state_frame_items, frame.shared_default_items, templates.jacobian_template_items, templates.macros_template_items, templates.driver_alloc_items],
         "trusted_base": _ode_trusted,
     },
@@ -49,7 +49,7 @@ PROPERTIES = {
         "level": "proof",
         "units": [ODE_UNIT, ("contracts.identity", "species_eq_hash"), ("contracts.speciesname", "species_name_properties"), ("contracts.fileloop", "network_entry_points")],
         "extra": [frame.state_frame_items, frame.shared_default_items, frame.ownership_items, conservation.items, templates.fex_template_items],
-        "oracle": native_ode.oracle_for("C04"),
+        "oracle": _both(native_ode.oracle_for("C04"), native_ids.oracle_alias_distinct("C04")),
         "trusted_base": _ode_trusted + ["bridge L2 (stated): exchange of the finite sums over species and reactions",
                                         "species identity: Species.__eq__ is an equivalence with consistent __hash__ (unit species_eq_hash, under the parse invariant W1-W4); one slot per class and GetElementAbund are checked only by the bounded native oracle"],
         "contract_files": ["conservation.py", "identity.py", "speciesname.py", "frame.py"],
@@ -67,7 +67,7 @@ PROPERTIES = {
     "C06": {
         "level": "proof",
         "units": [("contracts.rates", "assign_rates"), ("contracts.dupes", "find_duplicate_reaction"), ("contracts.identity", "reaction_eq_hash"), ("contracts.decoders", "naunet_roundtrip"), ("contracts.decoders", "decode_krome")],
-        "extra": [rates.lemma_adjacent_windows, templates.rate_array_scan_items, frame.state_frame_items, frame.shared_default_items],
+        "extra": [rates.lemma_adjacent_windows, templates.rate_array_scan_items, templates.guard_operand_items, frame.state_frame_items, frame.shared_default_items],
         "oracle": native_net.oracle("C06"),
         "trusted_base": ["assumed contract of rateexpr (C05/C11): a C expression", "KROME window syntax and k zero-initialisation: see contracts/templates.py"],
         "contract_files": ["rates.py", "dupes.py", "identity.py", "decoders.py"],
@@ -177,7 +177,7 @@ PROPERTIES = {
     "C14": {
         "level": "other",
         "units": [("contracts.netinv", "network_add_reaction"), ("contracts.netinv", "network_find_source_sink"), ("contracts.identity", "species_eq_hash"), ("contracts.identity", "reaction_eq_hash"), ("contracts.fileloop", "network_entry_points")],
-        "extra": [frame.state_frame_items, frame.shared_default_items, netinv.lemma_items],
+        "extra": [frame.state_frame_items, frame.shared_default_items, frame.assigns_items, netinv.lemma_items],
         "oracle": native_net.oracle("C14"),
         "trusted_base": ["Species.__eq__/__hash__ form an equivalence with consistent hash (species are abstract objects with a class id)", "<= 3 reactants, <= 5 products per reaction"],
         "contract_files": ["netinv.py", "identity.py"],
@@ -205,3 +205,9 @@ PROPERTIES = {
         "explanation": "mixed. PROVED (pyvc): the real Reaction.__format__('naunet') executed on symbolic fields followed by the real Reaction._parse_string returns the same names (0-3 reactants, 0-5 products), index, type code, source tag, and alpha/beta/gamma/window equal to the printed (rounded) values - the field width of a numeral is a minimum (both the fitting and the longer case are paths), sorted() is the identity on the name-sorted species lists only. BOUNDED: whole-network write/read cycles incl. the second cycle and species order; export law preservation is not checked (DESIGN D10) - networks read from kida/umist/leeds/naunet lines are written in the native format and read back twice; every field compared at the printed precision; the bounded parts are not counted as proved.",
     },
 }
+
+# frame (assigns-clause) obligations shared by the properties that depend on them
+for _p in ("C01", "C02", "C03", "C04", "C06", "C09", "C10", "C13", "C16", "C17"):
+    PROPERTIES[_p]["extra"] = list(PROPERTIES[_p].get("extra", [])) + [frame.loader_assigns_items]
+for _p in ("C13", "C15", "C17"):
+    PROPERTIES[_p]["extra"] = list(PROPERTIES[_p].get("extra", [])) + [frame.assigns_items]
